@@ -13,6 +13,7 @@ R  the same kernels/rasters through the real focal.apply / focal_stats / mean / 
 T  seeded larger / random rasters, kernels, dtypes, weighted kernels, kernels larger than the raster.
 """
 import itertools
+import os
 import random
 
 from harness import core
@@ -148,14 +149,17 @@ def stats_jobs(rng, tier, fam, small):
         sub = STATS if rng.random() < 0.6 else rng.sample(STATS, rng.randrange(1, 5))
         j = {"kind": "apply", "func": "focal_stats", "via": "focal_stats", "X": X, "K": K, "reds": list(sub),
              "tag": "stats_random"}
+        # other dtypes (each is a separate JIT specialisation per reducer): two statistics only
         if not any(isinstance(v, list) for row in X for v in row) and not any(v == "nan" for row in X for v in row):
-            if rng.random() < 0.3:
-                j["dtype"] = rng.choice(["int32", "int64", "float32", "uint8"]) if min(
-                    v for row in X for v in row) >= 0 else rng.choice(["int32", "int64", "float32"])
-        elif rng.random() < 0.2 and not any(isinstance(v, list) for row in X for v in row):
+            if rng.random() < 0.2:
+                j["dtype"] = rng.choice(["int32", "int64", "float32"])
+                j["reds"] = ["mean", "sum"]
+        elif rng.random() < 0.1 and not any(isinstance(v, list) for row in X for v in row):
             j["dtype"] = "float32"
-        if rng.random() < 0.1:
+            j["reds"] = ["mean", "sum"]
+        if "dtype" not in j and rng.random() < 0.08:
             j["kdtype"] = "int64"
+            j["reds"] = ["sum", "max"]
         jobs.append(j)
     return jobs
 
@@ -297,6 +301,24 @@ def badkernel_jobs():
             for w in ("ndarray", "list")]
 
 
+def arrange(rng, jobs, nproc=16):
+    """run_jobs gives job i to process i % nproc.  Jobs with a non-default dtype need their own JIT
+    specialisations (0.5 s each): keep them all on process 0 so that only one process compiles them."""
+    variant = [j for j in jobs if j.get("dtype") or j.get("kdtype")]
+    normal = [j for j in jobs if not (j.get("dtype") or j.get("kdtype"))]
+    rng.shuffle(normal)
+    out = []
+    vi = ni = 0
+    while vi < len(variant) or ni < len(normal):
+        if len(out) % nproc == 0 and vi < len(variant):
+            out.append(variant[vi]); vi += 1
+        elif ni < len(normal):
+            out.append(normal[ni]); ni += 1
+        else:
+            out.append(variant[vi]); vi += 1
+    return out
+
+
 # ------------------------------------------------------------------------------------------ verdicts
 FIELDS = {"apply": ["kind", "X", "K", "outs"], "mean": ["kind", "X", "passes", "excl", "out"],
           "conv": ["kind", "X", "Wt", "out"], "hot": ["kind", "X", "K", "out", "outneg", "band"],
@@ -372,8 +394,8 @@ def run(ctx):
                      ("mirror_cols", "BufferIsPositionedWindow"), ("half_up", "BufferIsPositionedWindow"),
                      ("swap_half", "BufferHoldsExactlyTheWindow"), ("noclip", "BufferHoldsExactlyTheWindow"),
                      ("nan_counts", "StatsAreStatsOfTheWindow")):
-        cfg = focal_cfg([(3, 4), (2, 2)], [(1, 3), (3, 1)], KFAMILY + K33_SEL, "ids" if mut != "nan_counts" else "all",
-                        mut=mut)
+        cfg = focal_cfg([(3, 4), (2, 2)] if mut != "nan_counts" else [(2, 2)], [(1, 3), (3, 1)], KFAMILY + K33_SEL,
+                        "ids" if mut != "nan_counts" else "all", mut=mut)
         cfg["invariants"] = [inv]
         ctx.model_check("Focal", cfg, "neg_" + mut, expect="violation")
 
@@ -409,7 +431,7 @@ def run(ctx):
     for mut, inv in (("flip_kernel", "ConvIsWeightedWindowSum"), ("clip_border", "NaNWhereWindowLeaves"),
                      ("skip_nan", "ConvIsWeightedWindowSum"), ("swap_half", "ConvIsWeightedWindowSum"),
                      ("zero_weight_hides_nan", "ConvIsWeightedWindowSum")):
-        cfg = conv_cfg([(1, 3), (3, 1), (3, 3)], [0, 1, "nan"], mut=mut)
+        cfg = conv_cfg([(1, 3), (3, 1)], [0, 1, "nan"], mut=mut)
         cfg["invariants"] = [inv]
         ctx.model_check("FocalConv", cfg, "neg_" + mut, expect="violation")
 
@@ -417,27 +439,29 @@ def run(ctx):
     inv_l = ["LadderIsThresholdForm", "LadderOdd", "LadderRange", "LadderMonotone", "LadderSign"]
     hk = [[[1, 1, 1], [1, 1, 1], [1, 1, 1]], [[0, 1, 0], [0, 0, 1], [0, 0, 0]], [[1, 0, 0], [0, 1, 0], [0, 0, 0]]]
 
-    def hot_cfg(mode, mut="none", shapes=((3, 3),), vals=(0, 1, 2), inv=None):
+    def hot_cfg(mode, mut="none", shapes=((3, 3),), vals=(0, 1, 2), inv=None, kernels=None):
         return dict(spec="Spec", invariants=inv or (inv_l if mode == "ladder" else
                                                      ["NegationSymmetry", "RasterRange", "BandAdmitsExact"]),
                     constants=dict(MODE=mode, ZMAX=4000, SHAPES=tla_shapes(shapes), VALS=tla_vals(list(vals)),
-                                   KERNELS=hk, MUT=mut))
+                                   KERNELS=kernels or hk, MUT=mut))
     ctx.model_check("Hotspots", hot_cfg("ladder"), "ladder")
-    ctx.model_check("Hotspots", hot_cfg("raster", shapes=((3, 3),), vals=(0, 1, 2) if thorough else (0, 1, "nan")),
-                    "raster_3x3")
+    ctx.model_check("Hotspots", hot_cfg("raster", shapes=((3, 3),), vals=(0, 1, 2) if thorough else (0, 1, "nan"),
+                                        kernels=hk if thorough else hk[:2]), "raster_3x3")
     if thorough:
         ctx.model_check("Hotspots", hot_cfg("raster", shapes=((3, 4),), vals=(0, 2, "nan")), "raster_3x4")
     for mut, inv in (("p233", "LadderIsThresholdForm"), ("ge", "LadderIsThresholdForm"), ("abs_lost", "LadderOdd"),
                      ("t95", "LadderIsThresholdForm")):
         ctx.model_check("Hotspots", hot_cfg("ladder", mut=mut, inv=[inv]), "neg_" + mut, expect="violation")
     ctx.exhaustive = True
+    if os.environ.get("VERIF_C09_STAGE") == "M":      # development aid: model checking only
+        return
 
     # ---------------------------------------------------------------- R / T : one fan-out over the real code
     fam = masks(1, 3) + masks(3, 1) + masks(3, 3) + KFAMILY
     jobs = (apply_window_jobs(rng, ctx.tier, fam) + stats_jobs(rng, ctx.tier, fam, K33_SEL + KFAMILY[:6])
             + reducer_jobs(rng, ctx.tier, fam) + mean_jobs(rng, ctx.tier) + conv_jobs(rng, ctx.tier)
             + hot_jobs(rng, ctx.tier) + badkernel_jobs())
-    rng.shuffle(jobs)                      # spread the JIT specialisations evenly over the worker processes
+    jobs = arrange(rng, jobs)
     cases = core.run_jobs("focal_worker", jobs, nproc=16)
     by = {}
     for c in cases:
